@@ -227,6 +227,8 @@ def _key(e, param, variant, what):
         return 'zoom:out-noncontiguous-RuntimeError'
     if name == 'convolve1d' and what == 'valid-rejected':
         return 'convolve1d:axis0-valid-out-rejected'
+    if name == 'convolve1d' and what in ('differs', 'not-returned'):
+        return 'convolve1d:axis0-out-written-transposed'
     if name in ('open', 'close') and param == 'output':
         return f'{name}:output-ignored'
     if name == 'cooccurence' and what.startswith('wrong-exception'):
